@@ -662,7 +662,7 @@ func (in *Interp) callFn(fn *ssa.Function, args []Value, free []Value) (ret Valu
 					}
 				}
 				taken := in.branch(c)
-				if !c.IsConst() && (strings.HasPrefix(block.Comment, "for.") || strings.HasPrefix(block.Comment, "range")) {
+				if !c.IsConst() && strings.HasSuffix(block.Comment, ".loop") {
 					// unwinding bound (with unwinding assertion) for loops whose continuation test is symbolic
 					if loopCnt == nil {
 						loopCnt = map[*ssa.BasicBlock]int{}
